@@ -179,7 +179,15 @@ def c07(res):
 # ---------------------------------------------------------------- C10
 def c10(res):
     out = []
+    last_ps = "PS x50 x 0 N - -"
     for rec, t, prev, d, vars_ in Walk(res):
+        if rec["op"] in ("pset", "pnew"):      # Parameter::set refused (inconsistent dimensions) leaves the parameter as it was
+            ps = [l for l in rec["lines"] if l.startswith("PS ")]
+            if rec["op"] == "pset" and rec["res"].startswith("R throw") and ps and ps[0] != last_ps:
+                out.append(("unchanged_after_throw", {"op": rec["n"], "call": "Parameter::set", "type": t[1], "dims": t[2]},
+                            "a refused Parameter::set changed the parameter: %s -> %s" % (last_ps, ps[0])))
+            if ps: last_ps = ps[0]
+            continue
         if prev is None or not rec["res"] or not rec["res"].startswith("R throw"): continue
         if rec["op"] in ("load", "new", "save"): continue
         if d is not None and d != prev:
@@ -293,6 +301,7 @@ def c05(res):
 # ---------------------------------------------------------------- C09
 def c09(res):
     out = []
+    last_ps = "PS x50 x 0 N - -"      # the fresh parameter every script starts with
     for rec, t, prev, d, vars_ in Walk(res):
         if rec["op"] == "pset":
             if rec["res"] == "R nostate": continue
@@ -317,8 +326,13 @@ def c09(res):
                 exp_dims = ([max([len(unx(v)) for v in vl] + [0])] if ty == "C" else []) + eff
                 if gdims != exp_dims or gvals != ([str(int(v)) for v in vl] if ty == "I" else vl) or q[4] != ty:
                     out.append(("set_stores", {"op": rec["n"]}, "stored type/dims/values differ from what was given: %s" % ps[0]))
-            elif not got_ok and ps and ps[0].split(" ")[4] != "N":
-                out.append(("set_refused_unchanged", {"op": rec["n"]}, "refused set changed the parameter"))
+            elif not got_ok and ps and last_ps is not None and ps[0] != last_ps:
+                out.append(("set_refused_unchanged", {"op": rec["n"], "type": ty, "dims": dims}, "refused set changed the parameter: %s -> %s" % (last_ps, ps[0])))
+            if ps: last_ps = ps[0]
+            continue
+        if rec["op"] == "pnew":
+            ps = [l for l in rec["lines"] if l.startswith("PS ")]
+            last_ps = ps[0] if ps else None
             continue
         if prev is None or d is None or rec["res"] != "R ok": continue
         if rec["op"] == "param":
